@@ -221,6 +221,32 @@ func (fc *FnCtx) contractModTargets(c *Contract, home *ContractSet, homePkg *typ
 				}
 				continue
 			}
+			if e.Fun.Kind == SIdent && (e.Fun.Name == "entries" || e.Fun.Name == "mapsof") {
+				// map regions: by type (whole arrays) — conservative
+				var mt *types.Map
+				if e.Args[0].Kind == SIdent {
+					if t, ok := ptype[e.Args[0].Name]; ok {
+						mt, _ = t.Underlying().(*types.Map)
+					}
+				} else if e.Args[0].Kind == SField && e.Args[0].Args[0].Kind == SIdent {
+					if t, ok := ptype[e.Args[0].Args[0].Name]; ok {
+						if sT, owner, _ := structOf(t); sT != nil {
+							env := &SpecEnv{fc: fc, home: home, homePkg: homePkg, bound: map[string]Val{}}
+							_, ft := fc.fieldOwner(owner, e.Args[0].Name, env)
+							mt, _ = ft.Underlying().(*types.Map)
+						}
+					}
+				}
+				if mt != nil {
+					vk, hk, vs, hs := fc.mapKeys(mt)
+					fc.heapKeySort(vk, vs)
+					fc.heapKeySort(hk, hs)
+					ck := "MC$" + fc.typeName(mt.Key()) + "$" + fc.typeName(mt.Elem())
+					fc.heapKeySort(ck, "(Array Int Int)")
+					out = append(out, modTarget{vk, ""}, modTarget{hk, ""}, modTarget{ck, ""})
+					continue
+				}
+			}
 			if e.Fun.Kind == SIdent && e.Fun.Name == "entries" && e.Args[0].Kind == SIdent {
 				if t, ok := ptype[e.Args[0].Name]; ok {
 					if mt, ok := t.Underlying().(*types.Map); ok {
